@@ -112,9 +112,11 @@ prop("C16", "exploration",
 
 prop("C11", "exploration",
      quick=[("mixed_audit", "fast", 900), ("crates_audit", "fast", 700), ("members_audit", "fast", 500), ("table_audit", "fast", 500),
-            ("tracks_audit", "fast", 600)],
+            ("tracks_audit", "fast", 600), ("mixed_disk_audit_faulty", "fast", 500), ("crates_disk_audit_faulty", "fast", 300),
+            ("members_disk_audit_faulty", "fast", 300)],
      thorough=[("mixed_audit", "fast", 40000), ("crates_audit", "fast", 40000), ("members_audit", "fast", 30000),
-               ("tracks_audit", "fast", 20000), ("table_audit", "fast", 30000)],
+               ("tracks_audit", "fast", 20000), ("table_audit", "fast", 30000), ("mixed_disk_audit_faulty", "fast", 20000),
+               ("crates_disk_audit_faulty", "fast", 15000), ("members_disk_audit_faulty", "fast", 15000)],
      relevant=["audits"],
      rule="after every step of the crate/track/membership workloads on an on-disk library an independent auditor opens the raw "
           "SimDisk image through its own SQLite connection: integrity_check, foreign_key_check, verify(), every stored blob decoded "
